@@ -8,9 +8,9 @@
    [format_line] is MatchLine.matchline, [parse_line] is from_matchline / the file level
    parser restricted to texts of the schema's own shape. *)
 From PV Require Import Lib.Base Lib.Round.
-From Coq Require Import QArith Ascii DecimalString DecimalN.
-#[local] Open Scope Z_scope.
+From Coq Require Import QArith Qround Ascii DecimalString DecimalN.
 #[local] Open Scope string_scope.
+#[local] Open Scope Z_scope.
 
 (* ------------------------------------------------------------------ characters, strings *)
 
@@ -144,7 +144,7 @@ Definition parse_fix (d : nat) (s : string) : option (bool * Z) :=
   | _ => None
   end.
 (* the float x = +-q (q >= 0 exact) is printed as round-half-even of q * 10^d, as CPython does *)
-Definition quantize (d : nat) (q : Q) : Z := round_half_even (q * inject_Z (pow10 d)).
+Definition quantize (d : nat) (q : Q) : Z := round_half_even (q * inject_Z (pow10 d))%Q.
 
 (* ------------------------------------------------------------------ fractional durations *)
 
@@ -154,7 +154,7 @@ Record frac := mkfrac { fnum : Z; fden : Z; ftd : option Z; fcomps : option (lis
 Definition bound_dens : list Z := [2;3;4;5;6;7;8;9;10;12;14;16;18;20;22;24;28;32;48;64;96;128].
 Definition frac_bound : Z := 1024.
 
-Definition Qabs' (q : Q) : Q := if Qle_bool 0 q then q else - q.
+Definition Qabs' (q : Q) : Q := if Qle_bool 0 q then q else (- q)%Q.
 
 (* np.argmin: index of the first minimum *)
 Fixpoint argmin_from (best : Q) (besti i : nat) (l : list Q) : nat :=
@@ -170,11 +170,11 @@ Definition argmin (l : list Q) : nat :=
 Definition bound_pair (n d : Z) : Z * Z :=
   if (frac_bound <? n) || (frac_bound <? d) then
     let val := Qmake n (Z.to_pos d) in
-    let dif := map (fun den => let x := val * inject_Z den in
+    let dif := map (fun den => let x := (val * inject_Z den)%Q in
                                let r := round_half_even x in
-                               if 1 <=? r then Qabs' (inject_Z r - x) else Qabs' (1 - x)) bound_dens in
+                               if 1 <=? r then Qabs' (inject_Z r - x)%Q else Qabs' (1 - x)%Q) bound_dens in
     let den := nth (argmin dif) bound_dens 2 in
-    let r := round_half_even (val * inject_Z den) in
+    let r := round_half_even (val * inject_Z den)%Q in
     ((if r <? 1 then Z.sgn n * 1 else Z.sgn n * r), den)
   else (n, d).
 
@@ -634,14 +634,14 @@ Definition bound_risky (n d : Z) : bool :=
   if (frac_bound <? n) || (frac_bound <? d) then
     let val := Qmake n (Z.to_pos d) in
     let eps := Qmake 1 1000000 in
-    let xs := map (fun den => val * inject_Z den) bound_dens in
-    let near_half := existsb (fun x => let r := x - inject_Z (Qfloor x) in
-                                       Qle_bool (Qabs' (r - (1 # 2))) eps) xs in
+    let xs := map (fun den => (val * inject_Z den)%Q) bound_dens in
+    let near_half := existsb (fun x => let r := (x - inject_Z (Qfloor x))%Q in
+                                       Qle_bool (Qabs' (r - (1 # 2))%Q) eps) xs in
     let dif := map (fun x => let r := round_half_even x in
-                             if 1 <=? r then Qabs' (inject_Z r - x) else Qabs' (1 - x)) xs in
+                             if 1 <=? r then Qabs' (inject_Z r - x)%Q else Qabs' (1 - x)%Q) xs in
     let i := argmin dif in
-    let m := nth i dif 0 in
-    let close := existsb (fun j => negb (Nat.eqb j i) && Qle_bool (Qabs' (nth j dif 0 - m)) eps)
+    let m := nth i dif 0%Q in
+    let close := existsb (fun j => negb (Nat.eqb j i) && Qle_bool (Qabs' (nth j dif 0 - m)%Q) eps)
                          (seq 0 (List.length dif)) in
     near_half || close
   else false.
